@@ -1,4 +1,5 @@
 import Mutagen.Proofs.Handshake
+import Mutagen.Proofs.HandshakeFaults
 /-!
 # C34 — version and magic-number handshakes agree on both sides
 
@@ -129,6 +130,53 @@ theorem real_sides_accept :
     (session clientParams serverParams .none .none).server = .ok ∧
     (session clientParams serverParams .none .none).clientSent.length = 15 ∧
     (session clientParams serverParams .none .none).serverSent.length = 15 := by decide
+
+/-- The two sides of the code under test are matched parties (each expects the
+other's magic number, same version). -/
+theorem real_sides_matched : Matched clientParams serverParams :=
+  ⟨by decide, by decide, by decide, by decide, by decide, by decide, by decide⟩
+
+/-- One in-transit fault on the server→client direction, between matched
+parties (`k < 15`: inside the 3+12 bytes; a cut after `k` bytes, or byte `k`
+xor-ed with `x ≠ 0`): the client — the receiver of the damaged direction —
+always fails. The server fails too, *except* when a byte of the version flight
+(`3 ≤ k`) is corrupted: the client has then already answered with its own
+magic number and version (`ClientVersionHandshake` sends before it compares),
+so the server accepts while the client rejects. -/
+theorem transit_fault_server_to_client (pc ps : Params) (m : Matched pc ps) (k : Nat) (x : UInt8)
+    (hk : k < 15) (hx : x ≠ 0) :
+    ((session pc ps (.trunc k) .none).client ≠ .ok ∧ (session pc ps (.trunc k) .none).server ≠ .ok) ∧
+    ((session pc ps (.flip k x) .none).client ≠ .ok ∧
+      ((session pc ps (.flip k x) .none).server = .ok ↔ 3 ≤ k)) := by
+  by_cases h3 : k < 3
+  · have a := trunc_sc_early pc ps m k x h3 hx
+    have b := flip_sc_early pc ps m k x h3 hx
+    refine ⟨a, b.1, ?_⟩
+    constructor
+    · intro e; exact absurd e b.2
+    · intro e; omega
+  · have a := trunc_sc_late pc ps m k x (by omega) hk hx
+    have b := flip_sc_late pc ps m k x (by omega) hk hx
+    exact ⟨a, b.1, fun _ => by omega, fun _ => b.2⟩
+
+/-- One in-transit fault on the client→server direction, between matched
+parties: the server always fails. The client fails too when the fault hits its
+magic number (`k < 3`: the server never sends its version); damage to the
+client's version flight (`3 ≤ k`) — the last message of the exchange — cannot
+be noticed by the client, which has already accepted. -/
+theorem transit_fault_client_to_server (pc ps : Params) (m : Matched pc ps) (k : Nat) (x : UInt8)
+    (hk : k < 15) (hx : x ≠ 0) :
+    ((session pc ps .none (.trunc k)).server ≠ .ok ∧
+      ((session pc ps .none (.trunc k)).client = .ok ↔ 3 ≤ k)) ∧
+    ((session pc ps .none (.flip k x)).server ≠ .ok ∧
+      ((session pc ps .none (.flip k x)).client = .ok ↔ 3 ≤ k)) := by
+  by_cases h3 : k < 3
+  · have a := trunc_cs_early pc ps m k x h3 hx
+    have b := flip_cs_early pc ps m k x h3 hx
+    exact ⟨⟨a.2, fun e => absurd e a.1, fun e => by omega⟩, b.2, fun e => absurd e b.1, fun e => by omega⟩
+  · have a := trunc_cs_late pc ps m k x (by omega) hk hx
+    have b := flip_cs_late pc ps m k x (by omega) hk hx
+    exact ⟨⟨a.2, fun _ => by omega, fun _ => a.1⟩, b.2, fun _ => by omega, fun _ => b.1⟩
 
 /-- Non-vacuity of the mismatch theorem: a server one patch level ahead is
 rejected by the client and rejects the client. -/
